@@ -146,7 +146,7 @@ def extract(region, unit_cfg):
             wc = None
             if "R10" in region.rules:
                 wc = set(unit_cfg.get("world_calls", []))
-            f = rules_mod.rewrite(text, "%s:%d" % (region.file, l0), region.rules, substs, wc)
+            f = rules_mod.rewrite(text, "%s:%d" % (region.file, l0), region.rules, substs, wc, unit_cfg.get("guard_calls") if "R21" in region.rules else None)
     except (rules_mod.RuleError, rscan.ScanError) as ex:
         raise UnitError("rewrite %s: %s" % (region.label, ex))
     return f.text, f.log, info
